@@ -6,7 +6,19 @@ META = {
     "technique": "Coq proof: the Buffer invariant of C02 gives apply = Ok iff pos + n <= limit, Err leaves data/position/invariant unchanged, seek past the end is Err never Panic; differential correspondence on histories concentrated at the limits, result codes and data compared with the model (absolute), bytes through the implementation's block oracle",
     "level_text": "Machine-checked theorems of Props/C11.v about Model/ChaChaStream.v: IETF apply succeeds exactly when pos + n <= 2^38 and otherwise returns Err with data, position and invariant unchanged; IETF try_seek succeeds exactly for p <= 2^38 and never panics; seek to the limit then apply of 0 bytes is Ok; the 64-bit variants never exhaust below 2^64 bytes; every byte produced is key stream of a block index below the limit with the nonce words as constructed (no reuse). Model tied to the code on generated boundary histories in debug and release profiles. All ten theorems are also pinned as closed instances for the REAL block producers of Model/ChaChaGuts.v and the seven constructors (C11_real_*: no producers_spec hypothesis left, only byte-ness and lengths of key and nonce), with the profile-explicit versions of Props/C02.v (C02_profile_*).",
     "level_note": "Trusted: Coq kernel+VM; hand-written model of rustcrypto_impl.rs (tied only on generated histories); block producers specified by blockfn as Section hypotheses; harness and case printer. No axioms.",
-    "rule": "cases = histories of {seek::<T>(p), apply(n), current_pos::<T>()} concentrated within 4 blocks of 0, 2^32 blocks, 2^38 bytes (IETF end: exactly to the end, one past, after the final block) and 2^64-1 bytes (64-bit variants), every SeekNum type incl. negative i32; half of the histories on the IETF variant; distinct = distinct (variant,key,nonce,ops); non-trivial = applies at least one byte and (mid-block seek or more than 3 ops); after every failed apply the harness checks the data is unchanged and the following output against the abstract position",
+    "rule": 'cases = histories of {seek::<T>(p), apply(n), current_pos::<T>()}: 6 corpus, 168 boundary-directed (14 kinds '
+            'round-robin, every other round on the IETF variant; see C02: exactly to the end, one past, after the final '
+            'block, repeated refused applies, empty applies at the end and while the last block is pending, seeks far '
+            'past the end, 4-5 KiB calls that would cross 2^38 refused whole), the rest random and concentrated within 4 '
+            'blocks of 0, 2^32 blocks, k*2^32 blocks, 2^38 bytes and 2^64-1 bytes (64-bit variants); every SeekNum type '
+            'incl. negative i32, u128 up to 2^128-1 (top bit set), for IETF u64/usize/u128 seeks anywhere in (2^38, '
+            '2^64]: 2^38+1.., 2^38+2^12, 2^39, 3*2^38, k*2^38 (block count 0 mod 2^32), 2^63, u64::MAX, 2^64+x; half of '
+            'the random histories on the IETF variant; host debug + release 300, forced SSE2 release 100, portable debug '
+            '100; distinct = distinct (variant,key,nonce,ops); non-trivial = applies at least one byte and (mid-block '
+            'seek or more than 3 ops); after every refused apply or seek the harness checks: data unchanged, '
+            'current_pos::<u128>() still the position before the call, a clone of the Buffer yields the next key-stream '
+            'byte (at the very end: refuses one more byte; within 4 KiB of the end: the bytes exactly up to the end), and '
+            'the following operations against the abstract position',
     "assumptions": ["little-endian host", "cipher 0.3 StreamCipher/StreamCipherSeek provided methods only forward to try_apply_keystream/try_seek/try_current_pos"],
 }
 
@@ -15,11 +27,19 @@ def run(ctx):
     vlib.standard_proof_stage(ctx)
     n = 300 if ctx.quick else 5000
     maxops = 10 if ctx.quick else 24
-    for profile in ("debug", "release"):
-        binary, log = vlib.cargo_build(profile=profile, bin_name="h_chacha")
+    m = 100 if ctx.quick else 1000
+    # (profile, harness features, forced back-end level, label, histories): the counter arithmetic under the limits
+    # (inc_block_ct / add_pos / seek32 / seek64) is back-end code, so one forced x86 back end and the portable one too
+    plans = [("debug", (), 0, "limits", n), ("release", (), 0, "limits", n),
+             ("release", (), 1, "limits/forced-sse2", m), ("debug", ("no_simd",), 0, "limits/portable", m)]
+    for profile, feats, level, label, cnt in plans:
+        binary, log = vlib.cargo_build(features=feats, profile=profile, bin_name="h_chacha")
         if binary is None:
-            raise vlib.CheckError("harness build failed (%s): %s" % (profile, log[-2000:]))
+            raise vlib.CheckError("harness build failed (%s %s): %s" % (profile, feats, log[-2000:]))
         s = vlib.correspondence(ctx, binary, "hist",
-                                ["--mode", "c11", "--count", n, "--maxops", maxops, "--big", 0],
-                                "limits/%s" % profile)
+                                ["--mode", "c11", "--count", cnt, "--maxops", maxops, "--big", 0, "--level", level],
+                                "%s/%s" % (label, profile))
+        ctx.log("%s/%s: %d histories, %s refused applies, %s refused seeks (%s IETF seeks far past the end, %s u128 with the top bit), %d disagree, %d direct failures" %
+                (label, profile, s.get("evaluations", 0), s.get("refused_applies"), s.get("refused_seeks"),
+                 s.get("ietf_seeks_far_past_the_end"), s.get("u128_seeks_with_top_bit"), len(s["failing"]), len(s.get("direct_failures", []))))
         vlib.decide_absolute(ctx, s, explain="explain_hist", theorem="C11_ietf_apply_ok_iff, C11_apply_err_atomic, C11_ietf_seek_ok_iff")
